@@ -156,6 +156,9 @@ func TestVerifC15(t *testing.T) {
 				r.Eval(1)
 				if got == refAns[i] {
 					r.Class(fmt.Sprintf("%s|%s|%s|identical", root.name, tag, q.Kind))
+					if i%97 == 3 && tag != "write" {
+						r.Sample(map[string]any{"mode": tag, "root": root.name, "url": q.URL, "scan_answer": fmt.Sprintf("%+v", refAns[i]), "instance_answer": fmt.Sprintf("%+v", got)})
+					}
 					continue
 				}
 				omittedAsset := ""
